@@ -1,27 +1,16 @@
-use curve25519_dalek::constants::ED25519_BASEPOINT_TABLE;
 use curve25519_dalek::montgomery::MontgomeryPoint;
-use curve25519_dalek::scalar::Scalar;
 
 use crate::constants::{
     CRYPTO_SCALARMULT_CURVE25519_BYTES, CRYPTO_SCALARMULT_CURVE25519_SCALARBYTES,
 };
 
-fn clamp(
-    n: &[u8; CRYPTO_SCALARMULT_CURVE25519_SCALARBYTES],
-) -> [u8; CRYPTO_SCALARMULT_CURVE25519_SCALARBYTES] {
-    let mut s = *n;
-    s[0] &= 248;
-    s[31] &= 127;
-    s[31] |= 64;
-    s
-}
-
 pub(crate) fn crypto_scalarmult_curve25519_base(
     q: &mut [u8; CRYPTO_SCALARMULT_CURVE25519_BYTES],
     n: &[u8; CRYPTO_SCALARMULT_CURVE25519_SCALARBYTES],
 ) {
-    let sk = Scalar::from_bytes_mod_order(clamp(n));
-    let pk = (ED25519_BASEPOINT_TABLE * &sk).to_montgomery();
+    // The clamped scalar must not be reduced modulo the group order: X25519 is
+    // defined on the clamped integer itself.
+    let pk = MontgomeryPoint::mul_base_clamped(*n);
 
     q.copy_from_slice(pk.as_bytes());
 }
@@ -31,9 +20,9 @@ pub(crate) fn crypto_scalarmult_curve25519(
     n: &[u8; CRYPTO_SCALARMULT_CURVE25519_SCALARBYTES],
     p: &[u8; CRYPTO_SCALARMULT_CURVE25519_BYTES],
 ) {
-    let sk = Scalar::from_bytes_mod_order(clamp(n));
-    let pk = MontgomeryPoint(*p);
-    let shared_secret = sk * pk;
+    // The clamped scalar must not be reduced modulo the group order: the point
+    // is not necessarily in the prime-order subgroup (RFC 7748).
+    let shared_secret = MontgomeryPoint(*p).mul_clamped(*n);
 
     q.copy_from_slice(shared_secret.as_bytes());
 }
